@@ -114,6 +114,16 @@ func (t *T) Choice(name string, n int) int {
 	return i
 }
 
+// Param is a bound of the harness: quick and thorough tiers may differ.
+func (t *T) Param(name string, quick, thorough int) int {
+	v, ok := t.raw("param:" + name)
+	if !ok {
+		return quick
+	}
+	i, _ := strconv.Atoi(v)
+	return i
+}
+
 func (t *T) Assume(c bool) {
 	if !c {
 		t.AssumeFailed = true
@@ -122,7 +132,7 @@ func (t *T) Assume(c bool) {
 }
 
 func (t *T) Assert(site string, c bool) {
-	if !c {
+	if !c || os.Getenv("VERIF_CANARY") != "" {
 		t.Fails = append(t.Fails, site)
 	}
 }
